@@ -216,6 +216,9 @@ func c41(c *rig.Ctx) {
 		rig.Must(os.MkdirAll(db, 0o755))
 		seed := r.Int63()
 		damage := []string{"none", "none", "torn-tail", "stale-index", "corrupt-index", "missing-index", "garbage-tail"}[r.Intn(7)]
+		if s < 3 {
+			damage = "none" // non-vacuity must not depend on the PRNG
+		}
 		c.Case(fmt.Sprintf("c41/%d", s), map[string]any{"writer_seed": seed, "damage": damage})
 		if out, err := exec.Command(rig.Self(), "c03-writer", db, fmt.Sprint(seed), filepath.Join(work, "markers"), fmt.Sprint(6+r.Intn(8)), "small").CombinedOutput(); err != nil {
 			c.Violation("c41/writer-failed", fmt.Sprintf("%v %s", err, tail(out, 300)), nil)
@@ -256,6 +259,9 @@ func c41(c *rig.Ctx) {
 		scenario := r.Intn(3)
 		if damage != "none" {
 			scenario = 0 // damaged directories are for the read-only clause
+		}
+		if s < 3 {
+			scenario = s // the first three sessions are undamaged (see above): every scenario occurs at every seed
 		}
 		if s%5 == 4 {
 			scenario = 3
@@ -318,6 +324,9 @@ func c41(c *rig.Ctx) {
 			nOpen := 1 + r.Intn(3)
 			for i := 0; i < nOpen; i++ {
 				mode := modes[r.Intn(len(modes))]
+				if s < 2 && i == 0 {
+					mode = modes[s] // session 0: a (traced) read-only session, session 1: a fail-fast open, at every seed
+				}
 				rep := run(mode, 0, true, i == 0, "")
 				if rep == nil {
 					continue
